@@ -73,6 +73,7 @@ def check(ctx):
     check_rewrap(ctx, repo, "C05-R7")
     ctx.rule("C05-R9", "the compiler front end reads variable values only to decide admission: no value read from the variable state flows into the IR it returns (compiled code is memoised and outlives the value)")
     check_no_state_in_ir(ctx, repo, "C05-R9")
+    c04._state_inventory(ctx, repo, "C05-R10")
     ctx.note("callgraph_resolution", cg.resolution_stats())
 
 
